@@ -606,6 +606,9 @@ func TestC16(t *testing.T) {
 	}
 
 	tw := newTxWorld(s, out, gov)
+	s2 := hx.NewSuite(t, 1+rng.Intn(3))
+	tw2 := newTxWorld(s2, out, gov)
+	tw2.keys = s2.App.GetKVStoreKey()
 	proposer := helpers.GenAccAddress()
 	s.MintToken(proposer, sdk.NewCoin(fxtypes.DefaultDenom, sdkmath.NewInt(1e18).MulRaw(1e9)))
 
@@ -968,6 +971,10 @@ func TestC16(t *testing.T) {
 			}
 			tw.txStream(rng, cases, junk(rng), other)
 			tw.propStream(rng, cases[:2], junk(rng), other)
+			// whole blocks: several of these transactions in one block through FinalizeBlock + Commit
+			// (on a second app instance: after a Commit the pending block state has no block gas meter until the next
+			// FinalizeBlock, so runTx outside a block — the tx / authz lines above — is only possible before the first one)
+			tw2.blockStream(rng, cases, junk(rng), other)
 		}
 	}
 }
